@@ -242,6 +242,19 @@ def run(rep, tier):
     if not mine:
         rep.ok('R11.5', 'acyclic', 'no cycle through T(USCXMLInvoker::run), USCXMLInvoker::_mutex or child/parent session locks (%d edges)' % len(c.lo.edges))
 
+    # ---- R11.12 / R11.13 (second audit)
+    rep.rule('R11.12', 'an event that crosses into another session does not point into the sender\'s document: where a child\'s event is copied into the parent\'s queue (ParentQueueImpl::enqueue) the DOM node of its data is detached (cloned / imported) or dropped - the sender\'s document is deleted when the invocation is cancelled')
+    pq = fb.fn('uscxml::USCXMLInvoker::ParentQueueImpl::enqueue')
+    handles_node = any((y['k'] == 'MemberExpr' and y.get('ref', {}).get('name') == 'node') or y.get('callee', {}).get('q', '').split('::')[-1] in ('importNode', 'cloneNode') for y in pq.walk())
+    rep.check(handles_node, 'R11.12', 'ParentQueueImpl::enqueue|data.node', pq.where(), 'the copy of the child\'s event that is handed to the parent %s' % (
+        'detaches the DOM node of its data' if handles_node else 'keeps Event::data.node, a raw pointer into the child\'s document: the parent leaves the invoking state, the child and its document are destroyed, the still queued event is processed (<log expr="_event.data"/>) - use after free'))
+    rep.rule('R11.13', 'done.invoke.<id> is the event the recommendation specifies: the invoker thread that reports the end of the child puts the donedata of the child\'s top-level final state into the event (returnDoneEvent(s.donedata))')
+    rn = fb.fn('uscxml::USCXMLInvoker::run')
+    done_lit = [y for y in rn.walk() if y['k'] == 'StringLiteral' and (y.get('str') or '').startswith('done.invoke')]
+    rep.minimum('R11.13', len(done_lit), 1, 'done.invoke literals in USCXMLInvoker::run')
+    sets_data = any(y['k'] in ('CXXOperatorCallExpr', 'BinaryOperator') and y.get('op') == '=' and any(z['k'] == 'MemberExpr' and z.get('ref', {}).get('name') == 'data' and 'Event' in (z.get('ref', {}).get('rec') or '') for z in sub(y['c'][-2])) for y in rn.walk())
+    rep.check(sets_data, 'R11.13', 'USCXMLInvoker::run|donedata', locstr(done_lit[0]) if done_lit else rn.where(), 'the done.invoke event %s' % (
+        'carries data' if sets_data else 'is built from name and invokeid only: <final><donedata><param name="x" expr="5"/></donedata></final> in the child gives the parent _event.data == nil'))
     # ---- R11.10 / R11.11 (audit round)
     rep.rule('R11.10', 'a restored child does not run before it is restored: the engines\' deserialize() do not start invocations (which starts the child\'s thread from its initial configuration) before InterpreterImpl::deserialize hands the child its saved state')
     for eq10 in ('uscxml::LargeMicroStep::deserialize', 'uscxml::FastMicroStep::deserialize'):
